@@ -183,6 +183,37 @@ func plans(thorough bool) []worldPlan {
 		add(ch, depth, func(c *updsim.WorldCfg) { c.Untracked = []int{2} })
 		add(cat([]string{"cmsg"}, ch), depth, func(c *updsim.WorldCfg) { c.Untracked = []int{2}; c.Server.ChanSlice = 1 })
 	}
+	// zero-count updates: in the log after the entry whose pts they carry, never first
+	for _, ch := range seqs([]string{"cmsg", "cdel", "cread"}, 2, chanLen) {
+		if ch[0] == "cread" {
+			continue
+		}
+		for _, sl := range []int{0, 2} {
+			sl := sl
+			if sl >= len(ch) {
+				continue
+			}
+			add(ch, depth, func(c *updsim.WorldCfg) { c.Server.ChanSlice = sl })
+		}
+	}
+	add([]string{"cmsg", "cweb", "cmsg"}, depth, nil)
+	add([]string{"cmsg@2", "cread@2", "cmsg@2"}, depth, func(c *updsim.WorldCfg) { c.Untracked = []int{2} })
+	for _, log := range seqs([]string{"msg", "del", "web"}, 2, commonLen-1) {
+		if log[0] == "web" {
+			continue
+		}
+		for _, sl := range []int{0, 2} {
+			sl := sl
+			if sl >= len(log) {
+				continue
+			}
+			add(log, depth, func(c *updsim.WorldCfg) { c.Server.Slice = sl })
+		}
+	}
+	// envelopes carrying several entries in any order
+	for _, log := range [][]string{{"msg", "del"}, {"msg", "web", "msg"}, {"msg", "enc", "del"}, {"cmsg", "cread"}, {"cmsg", "cread", "cmsg"}, {"cmsg", "cdel", "msg"}, {"cmsg@2", "cread@2"}, {"cmsg@2", "cmsg@2", "cread@2"}} {
+		add(log, depth-1, func(c *updsim.WorldCfg) { c.Containers = 3; c.Untracked = []int{2} })
+	}
 	add([]string{"cmsg", "cedit"}, depth, nil)
 	add([]string{"cedit", "cmsg"}, depth, nil)
 	add([]string{"cmsg", "cdel"}, depth, func(c *updsim.WorldCfg) { c.Server.Seq = true })
@@ -210,7 +241,8 @@ func main() {
 		c.Rule("A world = a reference server log (entries: msg, del, del2, edit, read = common pts; enc / qbot = qts; cmsg, cdel, cedit = channel pts) + answering policy (whole differences or slices of 1/2 entries, seq-numbered envelopes, envelope form, part of the log appearing later). " +
 			"The client starts in sync with an empty log, then BFS over all histories of at most D-1 events {push of any visible log entry (any order, any repetition, any omission), grow, main-loop timer => getDifference, channel timer => getChannelDifference}, states deduplicated by a canonical key of the real engine (boxes, queues, persisted state, delivery counts). " +
 			"From EVERY reachable state each of 3 recoveries is run (timers | updatesTooLong + updateChannelTooLong(pts) | updatePtsChanged + updateChannelTooLong without pts), followed by rounds of all timers until a round changes nothing (deterministic fixpoint). " +
-			"Oracle: every log entry was handed to UpdateHandler.Handle at least once, identified by the message/deleted/max/random id it carries. A case = world + history + recovery; distinct = distinct cases; the root of each world is trivial.")
+			"Also worlds with zero-count updates (web, cread, cweb: pts of the preceding entry, pts_count 0, carried in other_updates of every difference requested from a smaller pts), with envelopes carrying 2-3 entries in every order, and with channels unknown to the client at start. A zero-count entry is owed to the handler when a difference answer carried it or when a push of it arrived in order (all earlier entries of its sequence already pushed or served, no later one yet): a difference requested from its own pts cannot return it and the protocol tells clients to ignore it once the local pts is past it. " +
+			"Oracle: every (owed) log entry was handed to UpdateHandler.Handle at least once, identified by the message/deleted/max/random id it carries. A case = world + history + recovery; distinct = distinct cases; the root of each world is trivial.")
 		c.Assume("the select arms of internalState.Run / channelState.Run are transcribed 1:1 as step functions in the in-package accessor; queues are run to quiescence after every event (other interleavings, the sendOut drop path and real timers are left to the scheduler engine)")
 		c.Assume("fake server written from core.telegram.org/api/updates: new messages in new_messages, every other event in other_updates with its pts/qts, slices carry an intermediate state equal to the position after their last entry")
 		if p := os.Getenv("VERIF_CPUPROFILE"); p != "" {
